@@ -205,7 +205,12 @@ func Unsupported(msg string) {}
 func Concrete(s string) bool { return true }
 
 // Run executes a harness natively and reports what happened.
+var wedged bool
+
 func Run(h func()) (failures []string, skipped string, panicked interface{}) {
+	if wedged {
+		return nil, "an earlier replay in this process left goroutines blocked for ever", nil
+	}
 	Reset()
 	defer func() {
 		failures = Failures
@@ -568,6 +573,9 @@ func Terminates(f func()) bool {
 		}
 		return true
 	case <-time.After(2 * time.Second):
+		// the goroutines left behind may hold locks of the code under test:
+		// later replays in this process are not run
+		wedged = true
 		return false
 	}
 }
